@@ -330,3 +330,28 @@ func init() {
 var c11v4 = func(cc *CheckCtx) {
 	cc.Notes = append(cc.Notes, "v4.0 Score is not yet part of this check in this build")
 }
+
+func init() {
+	props["C10"] = &PropDef{
+		ID: "C10",
+		Custom: func(cc *CheckCtx) {
+			for _, v := range []string{"30", "31"} {
+				T := "CVSS" + v
+				cc.runRel(relSpec{Pkg: v, Func: "(" + T + ").BaseScore", Relation: "sameBase" + v, Name: "depends_only_on_base_metrics"})
+				cc.runRel(relSpec{Pkg: v, Func: "(" + T + ").Impact", Relation: "sameBase" + v, Name: "depends_only_on_base_metrics"})
+				cc.runRel(relSpec{Pkg: v, Func: "(" + T + ").Exploitability", Relation: "sameBase" + v, Name: "depends_only_on_base_metrics"})
+				cc.runRel(relSpec{Pkg: v, Func: "(" + T + ").TemporalScore", Relation: "sameBaseTemporal" + v, Name: "depends_only_on_base_and_temporal_weights"})
+				cc.runRel(relSpec{Pkg: v, Func: "(" + T + ").EnvironmentalScore", Relation: "sameEffective" + v, Name: "depends_only_on_effective_values"})
+			}
+			c10v4(cc)
+		},
+		Trusted: append(append([]string{}, trustedCommon...), "floating-point operations are uninterpreted in these obligations: what is proved holds for every interpretation, in particular IEEE-754"),
+		Assumptions: []string{
+			"two objects 'have the same effective values' when Modified-or-base codes coincide for the overridable metrics and the remaining scored metrics have the same specification weight (so X and its default are identified)",
+		},
+	}
+}
+
+var c10v4 = func(cc *CheckCtx) {
+	cc.Notes = append(cc.Notes, "v4.0 Score is not yet part of this check in this build")
+}
